@@ -72,6 +72,33 @@ func (g *Gen) concPrivateGraph(sharedUntracked []int) {
 	ds := g.shapeOf(s)
 	w := g.leafDistinct(ds, true, -1.5, 1.5)
 	pool := []int{w, s}
+	if g.chance(0.6) {
+		// the shared untracked tensor as a DIRECT operand (back-edge target) next to a tracked one
+		var y int
+		switch g.intn(4) {
+		case 0:
+			y, _ = g.do(Cmd{Op: OpBin, K: 6, T: w, U: T(s)})
+		case 1:
+			y, _ = g.do(Cmd{Op: OpBin, K: 7, T: s, U: T(w)})
+		case 2:
+			if len(ds) > 0 {
+				c, o := g.do(Cmd{Op: OpConcat, Targs: []Targ{T(s), T(w), T(s)}, Z: 0})
+				if o.Kind == "tensor" {
+					y, _ = g.do(Cmd{Op: OpAlong, K: 0, T: c, Z: 0})
+				}
+			}
+		default:
+			if len(ds) > 0 {
+				y, _ = g.do(Cmd{Op: OpPatch, T: w, Ranges: nil, U: T(s)})
+				if g.isT(y) {
+					y, _ = g.do(Cmd{Op: OpBin, K: 10, T: y, U: T(w)})
+				}
+			}
+		}
+		if g.isT(y) && len(g.shapeOf(y)) == len(ds) && prod(g.shapeOf(y)) == prod(ds) {
+			pool = append(pool, y)
+		}
+	}
 	for i := 0; i < 2+g.intn(5); i++ {
 		y := g.dagStep(pool, false)
 		if g.isT(y) {
@@ -118,6 +145,12 @@ func runConcurrent(seed int64, tier string) ([]*Scenario, []string) {
 		if !g0.Cmds[big1].Flag {
 			sharedUntracked = append(sharedUntracked, big1)
 		}
+		// a left operand and two different right operands with >= 512 elements each (packing buffers, block caches)
+		var wideA, wideB []int
+		if round%3 == 0 {
+			wideA = append(wideA, g0.leafDistinct([]int{4 + g0.intn(4), 32}, g0.chance(0.5), -1, 1))
+			wideB = append(wideB, g0.leafDistinct([]int{32, 16 + g0.intn(3)}, false, -1, 1), g0.leafDistinct([]int{32, 16 + g0.intn(3)}, false, -1, 1))
+		}
 		prefix := append([]Cmd{}, g0.Cmds...)
 		prefixObs := append([]Obs{}, g0.Obs...)
 		// ---- programs by sequential dry run on private copies of the shared tensors ----
@@ -132,6 +165,8 @@ func runConcurrent(seed int64, tier string) ([]*Scenario, []string) {
 			n := 4 + g.intn(10)
 			for i := 0; i < n; i++ {
 				switch {
+				case len(wideA) > 0 && g.chance(0.4):
+					g.do(Cmd{Op: OpMatMul, T: wideA[0], U: T(wideB[(t+i)%2])})
 				case g.chance(0.3):
 					g.concPrivateGraph(sharedUntracked)
 				case g.chance(0.35):
